@@ -474,8 +474,10 @@ class Log():
                 logconf.valid = False
                 raise KeyError('Variable {} not in TOC'.format(name))
             # Now that we know what type this variable has, add it to the log
-            # config again with the correct type
-            logconf.add_variable(name, var.ctype)
+            # config again with the correct type (unless that was done when the
+            # config was added the last time, for instance before a reconnect)
+            if not any(v.name == name for v in logconf.variables):
+                logconf.add_variable(name, var.ctype)
 
         # Now check that all the added variables are in the TOC and that
         # the total size constraint of a data packet with logging data is
